@@ -340,6 +340,56 @@ func (p *c20) flood(rec *core.Recorder, e *twig.Engine, r *core.Rand, floodID, n
 	}
 }
 
+// values whose method results point into (or alias) the receiver: a result obtained from one value must stay what it was
+// while the same attribute is looked up on other values of the type
+type c20Person struct{ Name string }
+type c20Acct struct {
+	Holder c20Person
+	Tags   []string
+}
+
+func (a *c20Acct) Primary() *c20Person { return &a.Holder }
+func (a c20Acct) Copy() c20Person      { return a.Holder }
+func (a *c20Acct) TagList() []string   { return a.Tags }
+func (a *c20Acct) Self() *c20Acct      { return a }
+
+func (p *c20) held(rec *core.Recorder, e *twig.Engine, phase string) bool {
+	a := c20Acct{Holder: c20Person{"ann"}, Tags: []string{"a1", "a2"}}
+	b := c20Acct{Holder: c20Person{"bob"}, Tags: []string{"b1"}}
+	ctx := map[string]interface{}{"a": a, "b": b, "pa": &a, "pb": &b}
+	cases := [][2]string{
+		{"{% set p = a.Primary %}{% set q = b.Primary %}{{ p.Name }}|{{ q.Name }}|{{ a.Primary.Name }}", "ann|bob|ann"},
+		{"{% for x in [a.Primary, b.Primary, a.Primary] %}{{ x.Name }},{% endfor %}", "ann,bob,ann,"},
+		{"{% set p = pa.Primary %}{% set q = pb.Primary %}{{ p.Name }}|{{ q.Name }}|{{ pa.Primary.Name }}", "ann|bob|ann"},
+		{"{% set t = a.TagList %}{% set u = b.TagList %}{{ t|join('+') }}|{{ u|join('+') }}", "a1+a2|b1"},
+		{"{% set s = a.Self %}{% set t = b.Self %}{{ s.Holder.Name }}|{{ t.Holder.Name }}|{{ s.Copy.Name }}", "ann|bob|ann"},
+		{"{% set c = a.Copy %}{% set d = b.Copy %}{{ c.Name }}|{{ d.Name }}|{{ pa.Copy.Name }}{{ pb.Copy.Name }}", "ann|bob|annbob"},
+	}
+	for _, c := range cases {
+		rec.Count("held-result-checks", 1)
+		var out string
+		var err error
+		panicked, site, val, stack := core.Guard(func() {
+			var t *twig.Template
+			t, err = e.ParseTemplate(c[0])
+			if err == nil {
+				out, err = t.Render(ctx)
+			}
+		})
+		cs := map[string]any{"template": c[0], "phase": phase}
+		if panicked {
+			rec.Violate("panic", "panic@"+site, "engine panicked: "+val, cs, stack)
+			return false
+		}
+		if err != nil || out != c[1] {
+			rec.Violate("reflection-reference", "held-result-changed:"+core.SigHash("h", c[0]),
+				fmt.Sprintf("%s printed %q (err=%v) in phase %q; the members of the two values are %q", c[0], out, err, phase, c[1]), cs, "")
+			return false
+		}
+	}
+	return true
+}
+
 func (p *c20) Run(rec *core.Recorder, seed uint64, idx int, tier string) {
 	r := core.NewRand("C20", seed, idx)
 	e := twig.New()
@@ -358,7 +408,13 @@ func (p *c20) Run(rec *core.Recorder, seed uint64, idx int, tier string) {
 		}
 		return true
 	}
+	if idx%2 == 0 && !p.held(rec, e, "cold, before anything else") {
+		return
+	}
 	if !pass("cold", r.Perm(len(all))) {
+		return
+	}
+	if !p.held(rec, e, "after the cold pass") {
 		return
 	}
 	var kept []c20Lookup
@@ -384,6 +440,9 @@ func (p *c20) Run(rec *core.Recorder, seed uint64, idx int, tier string) {
 			if !p.check(rec, e, lk, fmt.Sprintf("flood survivors after flood %d", round)) {
 				return
 			}
+		}
+		if !p.held(rec, e, fmt.Sprintf("after flood %d", round)) {
+			return
 		}
 	}
 	if idx%6 == 0 {
